@@ -1,7 +1,12 @@
 CONSTANTS
-  FixAsyncCb = FALSE
-  FixCbOutsideLock = FALSE
-  FixKickoff = FALSE
+  FixAsyncCb = TRUE
+  FixCbRpc = TRUE
+  FixCbEl = TRUE
+  FixKickoff = TRUE
+  FixDispatch = TRUE
+  FixPolicy = TRUE
+  FixResend = TRUE
+  FixRecover = TRUE
   Mode = "fine"
   Tier = "quick"
   Part = 0
@@ -10,6 +15,7 @@ INIT Init
 NEXT Next
 INVARIANT InvBounded
 INVARIANT Collect
+INVARIANT InvNoDeadlock
 VIEW View
 POSTCONDITION Post
 CHECK_DEADLOCK FALSE
